@@ -25,6 +25,16 @@ CHECKS = {
         note="comparison tolerance read most leniently; division and pow are not part of the statement",
         tech="exhaustive enumeration of a bounded input box executed on the implementation, oracle = exact rational arithmetic",
         ref="DESIGN.md 2/C14"),
+    "C06": dict(
+        text="the well-formedness predicate (closure, uniqueness, definition-before-use, exactly-once port connection, in-range slices, width agreement) plus from_proto / spice / spectre acceptance is evaluated on every package returned by to_proto over all design families, the example scripts (to_proto intercepted), the built-in generators, generated-name pairs and PDK-compiled designs",
+        note="netlister acceptance demanded only of packages without uncompiled physical primitives; quick tier takes a fixed arithmetic sub-sequence of the two largest families (reported as a cap)",
+        tech="invariant checked on every state of a bounded-exhaustive exploration of design programs executed on the implementation",
+        ref="DESIGN.md 2/C06"),
+    "C09": dict(
+        text="for eight parameter-class shapes, all ordered pairs of an adversarial value set x three call forms (keywords, instance, handed on through a second generator) are executed on the real generator machinery in a fresh cache: identity, body-run counts, package names and netlist sub-circuit names are compared; all permutations of up to four calls are replayed for name stability; three fresh processes with different hash seeds must agree",
+        note="parameter-class equality decides which calls must share a Module; two same-named Modules as parameter values and unhashable dict-parameter calls are excluded as grey",
+        tech="exhaustive enumeration of value pairs and of call-order permutations (operation histories) executed on the implementation, differential oracle across histories and processes",
+        ref="DESIGN.md 2/C09"),
 }
 
 NOT_YET = {}
